@@ -125,6 +125,29 @@ func genDagCase(t *rapid.T, cfg dagCfg) *DagCase {
 		pos := rapid.IntRange(0, len(calls)).Draw(t, "cycpos")
 		calls = append(calls[:pos], append([]Call{{Op: "dep", T: a, Deps: []int{b}}}, calls[pos:]...)...)
 	}
+	// some edges are declared through Graph.Task(id) look-ups when every task involved is already known
+	known := make([]bool, n)
+	for k := range calls {
+		cl := &calls[k]
+		switch cl.Op {
+		case "add", "retries":
+			known[cl.T] = true
+		case "dep":
+			all := known[cl.T]
+			for _, d := range cl.Deps {
+				all = all && known[d]
+			}
+			if all && rapid.IntRange(0, 3).Draw(t, "lookup") == 0 {
+				cl.Op = "depl"
+			} else if cfg.ReAdd > 0 && rapid.IntRange(0, 39).Draw(t, "badlookup") == 0 {
+				cl.Op = "depl" // may look up a task that is not known yet: a definition error
+			}
+			known[cl.T] = true
+			for _, d := range cl.Deps {
+				known[d] = true
+			}
+		}
+	}
 	c.Script = calls
 	total := 0
 	for i := 0; i < n; i++ {
@@ -320,7 +343,7 @@ var propC16 = &dprop{ID: "C16", Sub: "histories", Tag: "C16",
 				rep = true
 			}
 			seen[k] = true
-			if cl.Op == "dep" {
+			if cl.Op == "dep" || cl.Op == "depl" {
 				seen[fmt.Sprint("v", cl.T)] = true
 				for _, d := range cl.Deps {
 					seen[fmt.Sprint("v", d)] = true
